@@ -225,7 +225,7 @@ func hasChanOps(fn *ssa.Function, cs *Contracts) bool {
 	for _, b := range fn.Blocks {
 		for _, in := range b.Instrs {
 			switch x := in.(type) {
-			case *ssa.Send:
+			case *ssa.Send, *ssa.MapUpdate:
 				return true
 			case *ssa.Select:
 				for _, s := range x.States {
